@@ -7,10 +7,12 @@ package main
 //                      func receiveN: a slice literal of N+1 function literals; entry 0 is nil,
 //                      entry k is one select statement with k receive cases, case j receiving
 //                      from ss[chosenList[a]].items and returning chosenList[b]
-//   schema/stream.go   the two places that compare a length with maxSelectNum (both `>`)
+//   schema/stream.go   the two decisions that compare a length with maxSelectNum: build the reflect
+//                      cases or not, reflect.Select or receiveN (c08_streamsel.go; whichever function
+//                      holds them, whichever way round they are written)
 //   compose/graph.go   r.options.maxRunSteps = len(r.chanSubscribeTo) + K   (default step limit)
 //
-// Output: coq/Gen/StreamSelTable.v  (max_select_num, receive_table, select_threshold_ops)
+// Output: coq/Gen/StreamSelTable.v  (max_select_num, receive_table, builds_reflect_cases, recv_uses_reflect)
 //         coq/Gen/StepLimit.v       (default_step_addend, default_step_base)
 // Proofs/GenAgreeStream.v / Proofs/GenAgreeGraph.v prove them equal to what Model/Stream.v and
 // Model/Graph.v say.
@@ -33,7 +35,8 @@ func init() {
 		"From Eino Require Import Base.Util Model.StreamSelTable.\n\n"+
 		"Definition max_select_num : nat := Model.StreamSelTable.max_select_num.\n"+
 		"Definition receive_table : list (list (nat * nat)) := Model.StreamSelTable.receive_table.\n"+
-		"Definition select_threshold_ops : list string := Model.StreamSelTable.select_threshold_ops.\n")
+		"Definition builds_reflect_cases (n k : nat) : bool := Model.StreamSelTable.builds_reflect_cases n k.\n"+
+		"Definition recv_uses_reflect (n k : nat) : bool := Model.StreamSelTable.recv_uses_reflect n k.\n")
 	register("steplimit", extractStepLimit)
 	registerFallback("steplimit", "StepLimit.v", "(* Gen/StepLimit.v — translator tie UNAVAILABLE: tools/go2v (extractor \"steplimit\") did not recognise the\n"+
 		"   shape of compose/graph.go; the model's own constants are re-exported. *)\n"+
@@ -181,24 +184,11 @@ func extractStreamSel(repo string) (string, string, error) {
 		}
 		table = append(table, row)
 	}
-	// the comparisons with maxSelectNum in stream.go
-	g, err := parseGo(fset, repo, "schema", "stream.go")
+	// the two decisions that depend on maxSelectNum, wherever package schema takes them (c08_streamsel.go)
+	sites, err := c08selSites(repo)
 	if err != nil {
 		return "", "", err
 	}
-	var ops []string
-	ast.Inspect(g, func(n ast.Node) bool {
-		be, ok := n.(*ast.BinaryExpr)
-		if !ok {
-			return true
-		}
-		if id, ok := be.Y.(*ast.Ident); ok && id.Name == "maxSelectNum" {
-			ops = append(ops, squash(types.ExprString(be.X))+be.Op.String())
-		} else if id, ok := be.X.(*ast.Ident); ok && id.Name == "maxSelectNum" {
-			ops = append(ops, be.Op.String()+squash(types.ExprString(be.Y)))
-		}
-		return true
-	})
 	var b strings.Builder
 	b.WriteString("(* Gen/StreamSelTable.v — GENERATED by tools/go2v (extractor \"streamsel\") from schema/select.go\n")
 	b.WriteString("   (maxSelectNum, receiveN) and schema/stream.go (comparisons with maxSelectNum). Do not edit. *)\n")
@@ -219,15 +209,21 @@ func extractStreamSel(repo string) (string, string, error) {
 		}
 		b.WriteString("]")
 	}
-	b.WriteString(" ].\n\n(* every comparison of a length with maxSelectNum in schema/stream.go, in source order *)\n")
-	b.WriteString("Definition select_threshold_ops : list string :=\n  [ ")
-	for i, o := range ops {
-		if i > 0 {
-			b.WriteString("; ")
+	b.WriteString(" ].\n\n(* the two decisions of schema/stream.go that depend on maxSelectNum, as functions of n = len(sts) (all\n   sources of the merged reader) and k = len(chosenList) (the sources that have not ended);\n   true = the reflect way *)\n")
+	for _, role := range []string{"build", "recv"} {
+		for _, st := range sites {
+			if st.role != role {
+				continue
+			}
+			if role == "build" {
+				fmt.Fprintf(&b, "(* %s: `%s` decides whether the []reflect.SelectCase are built *)\n", st.fn, st.src)
+				fmt.Fprintf(&b, "Definition builds_reflect_cases (n k : nat) : bool := %s.\n", st.gallina)
+			} else {
+				fmt.Fprintf(&b, "(* %s: `%s` decides between reflect.Select (true) and receiveN (false) *)\n", st.fn, st.src)
+				fmt.Fprintf(&b, "Definition recv_uses_reflect (n k : nat) : bool := %s.\n", st.gallina)
+			}
 		}
-		b.WriteString(coqStr(o))
 	}
-	b.WriteString(" ].\n")
 	return "StreamSelTable.v", b.String(), nil
 }
 
